@@ -17,10 +17,13 @@
      (floats as bit patterns: `%g` is not modelled, the harness parses the text back), int4range, int8range, daterange,
      tsrange, tstzrange (all 32 flag bytes), json (`C04_json`: with the documented behaviour of encoding/json.Unmarshal,
      `Model.ScalarsJsonLib`, as the library);
+     path, polygon (`C04_path`, `C04_polygon`: every stored value, A17 repaired by fixes/scalars/14; `C04_path_layouts`: the
+     send/recv fallback never fires on a stored value), numrange (`C04_numrange`: every flag byte, every well-formed numeric
+     bound incl. NaN / ±Infinity, both varlena header forms with the alignment padding, A16 repaired by fixes/scalars/15;
+     with the numeric decoder of area numjson as `ext.decodeNumeric` and the ParseFloat contract of C05);
    * partial, because a recorded finding carves out the rest (explicit hypothesis, concrete counter-example theorem):
      tid (A11: only block numbers whose 16-bit halves are equal — among blocks 0..65535 that is block 0 only),
-     pg_lsn (A10: only LSNs whose 32-bit halves are equal), numrange (A16: only `empty` and `(,)`: no finite bound);
-   * no round trip at all: path, polygon (A17: every stored value is decoded in the wrong layout; `C04_path_finding`);
+     pg_lsn (A10: only LSNs whose 32-bit halves are equal);
    * type names: `C04_typeName` / `C04_typeName_only` for the 51 scalar type oids and `C04_typeName_arrays` for the 51 array
      type oids (finding ARRNAME, repaired by fixes/scalars/13).
   Text renderings: the Spec's view is written from PostgreSQL's output formats and value definitions (see the header of
@@ -35,6 +38,8 @@ import PgVerif.Proofs.ScalarsMoney
 import PgVerif.Proofs.ScalarsFrac
 import PgVerif.Proofs.TxtNumerals
 import PgVerif.Proofs.ScalarsJsonParse
+import PgVerif.Proofs.ScalarsPath
+import PgVerif.Proofs.ScalarsNumRange
 namespace PgVerif.Props.C04
 open PgVerif PgVerif.Model.Scalars PgVerif.Spec.Scalars PgVerif.Txt PgVerif.Proofs.ScalarsRT
 
@@ -535,7 +540,9 @@ theorem C04_range (ext : Ext) (ty : RangeTy) (hty : ty ≠ .num) (flags : Nat) (
   show decodeType ext (enc (.range ty flags lo hi)) ty.oid = _
   have hne : 1 ≤ (enc (.range ty flags lo hi)).length := by
     show 1 ≤ (le 4 ty.oid ++ (if rangeHasLower flags then encBoundAs ty lo else []) ++
-      (if rangeHasUpper flags then encBoundAs ty hi else []) ++ [UInt8.ofNat flags]).length
+      (if rangeHasUpper flags then
+        boundPad (4 + (if rangeHasLower flags then encBoundAs ty lo else []).length) hi ++ encBoundAs ty hi else []) ++
+      [UInt8.ofNat flags]).length
     simp only [List.length_append, le_length, List.length_cons, List.length_nil]; omega
   rw [decodeType_range ext _ ty.oid hne (by cases ty <;> decide) (by cases ty <;> decide)]
   exact decodeRange_rt ext ty hty flags lo hi h'.1
@@ -547,58 +554,123 @@ theorem C04_range (ext : Ext) (ty : RangeTy) (hty : ty ≠ .num) (flags : Nat) (
 /-- non-vacuity: the witness of A15, `[-5000000000,5000000000)::int8range`, is a well-formed value -/
 example : (Val.range .int8 2 (.int (-5000000000)) (.int 5000000000)).WF := by decide
 
-/-- numrange, partial: the values without a finite bound — `empty` and the ranges whose bounds are both
-infinite, with every flag byte — are shown right.  Missing: every numrange with a finite bound; the
-bound is printed as `?` (A16, recorded finding), see `C04_numrange_finding`. -/
-theorem C04_numrange_partial (ext : Ext) (flags : Nat) (lo hi : Bound) (h : (Val.range .num flags lo hi).WF)
-    (hk : kfNumRange (.range .num flags lo hi) = false) : RoundTrip ext (.range .num flags lo hi) := by
-  have hf : flags < 32 := by
-    have h2 : (decide (flags < 32) && (!rangeHasLower flags || lo.wf .num) && (!rangeHasUpper flags || hi.wf .num)) = true := h
-    simp only [Bool.and_eq_true, decide_eq_true_eq] at h2
-    exact h2.1.1
-  have hk' : rangeHasLower flags = false ∧ rangeHasUpper flags = false := by simpa [kfNumRange] using hk
+/-- numrange (A16 repaired, fixes/scalars/15): for all 32 flag bytes and all well-formed numeric bounds — NaN, ±Infinity, any
+sign, weight, display scale and digit string, in either numeric header form that can hold the value, stored as
+range_serialize stores them: behind a 1-byte varlena header when payload + 1 ≤ 127 bytes, else behind a 4-byte header that is
+int-aligned relative to the range's own 4-byte header, with zero bytes as padding — the decoded text is range_out's form
+with each present bound shown as the float64 nearest to its value (what the tool returns for every numeric, property C05),
+printed with `%v` = `%g` (carried as the bit pattern, Types/FStr.lean).  `hext` names the numeric decoder: the model of area
+numjson (`Model.decodeNumeric`) with strconv.ParseFloat = `pf`; `hpf` is ParseFloat's documented contract (C05).  The array,
+jsonb and JSON decoders of `ext` are arbitrary. -/
+theorem C04_numrange (ext : Ext) (pf : Model.ParseFloat) (hpf : Spec.ParseFloatOK pf)
+    (hext : ext.decodeNumeric = numExt pf) (flags : Nat) (lo hi : Bound) (h : (Val.range .num flags lo hi).WF) :
+    RoundTrip ext (.range .num flags lo hi) := by
+  have h' : flags < 32 ∧ (rangeHasLower flags = false ∨ lo.wf .num = true) ∧ (rangeHasUpper flags = false ∨ hi.wf .num = true) := by
+    simpa [Val.WF, Val.wf, and_assoc] using h
   have hfb : (UInt8.ofNat flags).toNat = flags := u8_toNat flags (by omega)
   unfold RoundTrip
-  show decodeType ext (le 4 3906 ++ (if rangeHasLower flags then encBoundAs .num lo else []) ++
-      (if rangeHasUpper flags then encBoundAs .num hi else []) ++ [UInt8.ofNat flags]) 3906 = .ok (.str (rangeText flags lo hi))
-  simp only [hk'.1, hk'.2, Bool.false_eq_true, if_false, List.append_nil]
-  rw [decodeType_range ext _ 3906 (by simp) (by decide) (by decide)]
+  show decodeType ext (enc (.range .num flags lo hi)) 3906 = _
+  have hne : 5 ≤ (enc (.range .num flags lo hi)).length := by
+    show 5 ≤ (le 4 3906 ++ (if rangeHasLower flags then encBoundAs .num lo else []) ++
+      (if rangeHasUpper flags then
+        boundPad (4 + (if rangeHasLower flags then encBoundAs .num lo else []).length) hi ++ encBoundAs .num hi else []) ++
+      [UInt8.ofNat flags]).length
+    simp only [List.length_append, le_length, List.length_cons, List.length_nil]; omega
+  rw [decodeType_range ext _ 3906 (by omega) (by decide) (by decide)]
   unfold decodeRange
-  have hlen : ¬ (le 4 3906 ++ [UInt8.ofNat flags]).length < 5 := by simp
-  rw [if_neg hlen, idx_last]
+  rw [if_neg (by omega)]
+  have hlast : idx (enc (.range .num flags lo hi)) ((enc (.range .num flags lo hi)).length - 1) = .ok (UInt8.ofNat flags) :=
+    idx_last _ _
+  rw [hlast]
   simp only [ok_bind, hfb, mask1]
   cases h0 : flags.testBit 0
-  · have h3 : flags.testBit 3 = true := by simpa [rangeHasLower, h0] using hk'.1
-    have h4 : flags.testBit 4 = true := by simpa [rangeHasUpper, h0] using hk'.2
-    simp only [Bool.false_eq_true, if_false, if_true, decodeNumericRange, mask2, mask4, mask8, mask16, h3, h4,
-      rangeText, h0, hk'.1, hk'.2, pure_eq_ok, List.append_nil, List.append_assoc]
-  · simp only [if_true, pure_eq_ok, rangeText, h0]
+  · simp only [Bool.false_eq_true, if_false, show OidNumRange = 3906 from rfl, if_true]
+    have key := decodeNumericRange_rt ext pf hpf hext flags lo hi h0
+      (fun hl => by rcases h'.2.1 with h1 | h1; · rw [hl] at h1; cases h1
+                    · exact h1)
+      (fun hu => by rcases h'.2.2 with h1 | h1; · rw [hu] at h1; cases h1
+                    · exact h1)
+    rw [key]
+    rfl
+  · simp only [if_true, pure_eq_ok]
+    show Except.ok (lit "empty") = Except.ok (fstrS (numRangePieces flags lo hi))
+    simp only [numRangePieces, h0, if_true]
     rfl
 
-/-- the numrange defect on a concrete stored value: `[1,3)` is shown as `[?,?)`. -/
-theorem C04_numrange_finding (ext : Ext) :
-    (Val.range .num 2 (.num 1) (.num 3)).WF ∧ ¬ RoundTrip ext (.range .num 2 (.num 1) (.num 3)) := by
-  refine ⟨by decide, ?_⟩
-  intro h
-  have hm : decodeType ext (enc (.range .num 2 (.num 1) (.num 3))) 3906 = .ok (.str [91, 63, 44, 63, 41]) := rfl
-  unfold RoundTrip at h
-  rw [show (Val.range .num 2 (.num 1) (.num 3)).typeOid = 3906 from rfl, hm] at h
-  injection h with h
-  injection h with h
-  revert h; decide
+/-- non-vacuity of `C04_numrange`: an `Ext` with the numeric decoder of area numjson exists; the commit's witness `[1,9999)`
+and a range whose upper bound (63 digits, 128 payload bytes) needs a 4-byte header behind 3 padding bytes are well-formed -/
+example : ∃ ext : Ext, ext.decodeNumeric = numExt Spec.parseFloatRef :=
+  ⟨{ decodeArray := fun _ _ => pure .nil, decodeNumeric := numExt Spec.parseFloatRef, parseJSONB := fun _ => pure .nil,
+     jsonUnmarshal := fun _ => none }, rfl⟩
 
-/-- the path defect (A17: wire layout instead of the stored layout, pinned by TestDecodePath /
-TestDecodePolygon; recorded finding) on a concrete stored value: the open path `[(1,2)]` is shown as `()`.
-Every stored path / polygon is in this class, so there is no round-trip theorem for these two types. -/
-theorem C04_path_finding (ext : Ext) :
+example : (Val.range .num 2 (.num (.fin false 0 0 [1]) .short) (.num (.fin false 0 0 [9999]) .short)).WF ∧
+    (Val.range .num 2 (.num (.fin false 0 0 [1]) .short) (.num (.fin true 62 0 (List.replicate 63 9999)) .short)).WF ∧
+    (Val.range .num 6 (.num .ninf .long) (.num .nan .short)).WF := by decide
+
+/-- the defect repaired by fixes/scalars/15 on the commit's witness: the stored `[1,9999)` (bytes 42 0f 00 00, 0b 00 80 01 00,
+0b 00 80 0f 27, 02) decodes to `[1,9999)` with both bounds as floats; the former code printed `[?,?)` -/
+theorem C04_numrange_witness :
+    decodeType { decodeArray := fun _ _ => pure .nil, decodeNumeric := numExt Spec.parseFloatRef, parseJSONB := fun _ => pure .nil,
+                 jsonUnmarshal := fun _ => none }
+      [0x42, 0x0f, 0, 0, 0x0b, 0, 0x80, 1, 0, 0x0b, 0, 0x80, 0x0f, 0x27, 2] 3906
+    = .ok (.arr [.str [91], .f64 0x3FF0000000000000, .str [44], .f64 0x40C3878000000000, .str [41]]) := by
+  decide +kernel
+
+/-- path (A17 repaired, fixes/scalars/14): every stored path — int32 npts, int32 closed, int32 dummy, then the points — with
+1 ≤ npts < 2²⁷ points of any float64 bit patterns decodes to its points in order, in `(…)` when closed and `[…]` when open
+(floats carried as bit patterns).  No carve-out. -/
+theorem C04_path (ext : Ext) (closed : Bool) (pts : List Pt) (h : (Val.path closed pts).WF) :
+    RoundTrip ext (.path closed pts) := by
+  unfold RoundTrip
+  show decodeType ext (enc (.path closed pts)) 602 = _
+  have hl : 1 ≤ (enc (.path closed pts)).length := by
+    show 1 ≤ (le 4 pts.length ++ le 4 (if closed then 1 else 0) ++ le 4 0 ++ pts.flatMap encPt).length
+    simp only [List.length_append, le_length]; omega
+  rw [decodeType_602 ext _ hl]
+  exact decodePath_enc closed pts h
+
+/-- polygon (A17 repaired): every stored polygon — int32 npts, the 32-byte bounding box, then the points — with
+1 ≤ npts < 2²⁷ points decodes to its points in order, in `(…)`.  No carve-out. -/
+theorem C04_polygon (ext : Ext) (bbox : Bytes) (pts : List Pt) (h : (Val.polygon bbox pts).WF) :
+    RoundTrip ext (.polygon bbox pts) := by
+  unfold RoundTrip
+  show decodeType ext (enc (.polygon bbox pts)) 604 = _
+  have hl : 1 ≤ (enc (.polygon bbox pts)).length := by
+    show 1 ≤ (le 4 pts.length ++ bbox ++ pts.flatMap encPt).length
+    simp only [List.length_append, le_length]; omega
+  rw [decodeType_604 ext _ hl]
+  exact decodePolygon_enc bbox pts h
+
+/-- the two layouts decodePathOrPolygon knows can never both fit one value: the stored layout is accepted only when the
+length is exactly header + 16·npts with header 12 (path) or 36 (polygon), i.e. ≡ 12 or 4 (mod 16); a send/recv value has
+length 5 + 16·m.  So (1) a value accepted as stored is not a send/recv value, (2) a send/recv value is never read as stored
+(TestDecodePath / TestDecodePolygon keep their meaning), and (3) on every stored path / polygon the stored reading is taken:
+the fallback never fires on a stored value. -/
+theorem C04_path_layouts :
+    (∀ (data : Bytes) (oid n : Nat) (c : Bool), storedLayout data oid = .ok (some (n, c)) →
+      data.length = storedFirst oid + 16 * n ∧ ¬ ∃ m : Nat, data.length = 5 + 16 * m) ∧
+    (∀ (data : Bytes) (oid m : Nat), data.length = 5 + 16 * m → storedLayout data oid = .ok none) ∧
+    (∀ (closed : Bool) (pts : List Pt), (Val.path closed pts).WF →
+      storedLayout (enc (.path closed pts)) 602 = .ok (some (pts.length, closed))) ∧
+    (∀ (bbox : Bytes) (pts : List Pt), (Val.polygon bbox pts).WF →
+      storedLayout (enc (.polygon bbox pts)) 604 = .ok (some (pts.length, false))) :=
+  ⟨fun data oid n c h => ⟨storedLayout_len data oid n c h, layouts_exclusive data oid n c h⟩,
+   fun data oid m h => wire_not_stored data oid m h,
+   fun closed pts h => stored_never_fallback_path closed pts h,
+   fun bbox pts h => stored_never_fallback_polygon bbox pts h⟩
+
+/-- the defect repaired by fixes/scalars/14 on the commit's witness: the stored open path `[(1,2)]` (01000000 00000000 00000000
+and the point) decodes to `[(1,2)]` (the former code printed `()`); and the 53-byte send/recv vector shape of TestDecodePath
+(flag byte 1, count 3) is still read in the send/recv layout -/
+theorem C04_path_witness (ext : Ext) :
     (Val.path false [(0x3FF0000000000000, 0x4000000000000000)]).WF ∧
-    decodeType ext (enc (.path false [(0x3FF0000000000000, 0x4000000000000000)])) 602 = .ok (.arr [.str [40, 41]]) ∧
-    view (.path false [(0x3FF0000000000000, 0x4000000000000000)]) =
-      .arr [.str [91, 40], .f64 0x3FF0000000000000, .str [44], .f64 0x4000000000000000, .str [41, 93]] := by
-  exact ⟨by decide, rfl, rfl⟩
+    decodeType ext (enc (.path false [(0x3FF0000000000000, 0x4000000000000000)])) 602 =
+      .ok (.arr [.str [91, 40], .f64 0x3FF0000000000000, .str [44], .f64 0x4000000000000000, .str [41, 93]]) ∧
+    storedLayout ([1] ++ le 4 3 ++ zeros 48) 602 = .ok none := by
+  exact ⟨by decide, rfl, by decide⟩
 
 /-- non-vacuity of the per-type hypotheses: boundary values of many types are well-formed, and the partial
-theorems for tid / pg_lsn / numrange have values inside their hypotheses -/
+theorems for tid / pg_lsn have values inside their hypotheses -/
 example : (Val.int2 (-32768)).WF ∧ (Val.int8 9223372036854775807).WF ∧ (Val.xid 3000000000).WF ∧
     (Val.money (-999999999999999)).WF ∧ (Val.date (.fin 9999 12 31)).WF ∧ (Val.date (.fin 1 1 1)).WF ∧
     (Val.date (.fin 2000 2 29)).WF ∧ (Val.date .negInf).WF ∧ (Val.bit true [true, false, true, true, false]).WF ∧
@@ -606,17 +678,19 @@ example : (Val.int2 (-32768)).WF ∧ (Val.int8 9223372036854775807).WF ∧ (Val.
     (Val.uuid (zeros 16)).WF ∧ (Val.inet false false [10, 0, 0, 0] 24).WF ∧
     ((Val.tid 65537 7).WF ∧ kfTid (.tid 65537 7) = false) ∧
     ((Val.pglsn (7 * 2 ^ 32 + 7)).WF ∧ kfPgLsn (.pglsn (7 * 2 ^ 32 + 7)) = false) ∧
-    ((Val.range .num 24 (.num 1) (.num 1)).WF ∧ kfNumRange (.range .num 24 (.num 1) (.num 1)) = false) ∧
+    (Val.path true [(0, 0), (0x3FF0000000000000, 0x3FF0000000000000)]).WF ∧ (Val.polygon (zeros 32) [(0, 0)]).WF ∧
     (Val.range .tstz 6 (.ts (.fin 1999 12 31 23 59 59 500000)) (.ts .posInf)).WF := by decide
 
 /-! ### all types at once -/
 
 /-- C04 for every abstract value: every well-formed stored value of every supported scalar type decodes
-to the value a correct tool must show, except inside the four recorded classes (pg_lsn and tid with unequal
-halves, numrange with a finite bound, path / polygon).  `hext` names the JSON library (`C04_json`); the array, numeric and
-jsonb decoders of `ext` are arbitrary.  Partial exactly by the four carve-outs `hk`. -/
-theorem C04_all_partial (ext : Ext) (hext : ext.jsonUnmarshal = Model.ScalarsJsonLib.jsonUnmarshal) (v : Val) (h : v.WF)
-    (hk : kfPgLsn v = false ∧ kfTid v = false ∧ kfNumRange v = false ∧ kfPath v = false) : RoundTrip ext v := by
+to the value a correct tool must show, except inside the two recorded classes that remain (pg_lsn and tid with unequal
+halves: A10, A11, pinned by the repository's tests).  `hext` names the JSON library (`C04_json`), `hnum` / `hpf` the numeric
+decoder and the ParseFloat contract (`C04_numrange`); the array and jsonb decoders of `ext` are arbitrary.  Partial exactly
+by the two carve-outs `hk`. -/
+theorem C04_all_partial (ext : Ext) (hext : ext.jsonUnmarshal = Model.ScalarsJsonLib.jsonUnmarshal)
+    (pf : Model.ParseFloat) (hpf : Spec.ParseFloatOK pf) (hnum : ext.decodeNumeric = numExt pf) (v : Val) (h : v.WF)
+    (hk : kfPgLsn v = false ∧ kfTid v = false) : RoundTrip ext v := by
   cases v with
   | bool b => exact C04_bool ext b
   | char c => exact C04_char ext c
@@ -627,7 +701,7 @@ theorem C04_all_partial (ext : Ext) (hext : ext.jsonUnmarshal = Model.ScalarsJso
   | oid n => exact C04_oid ext n h
   | xid n => exact C04_xid ext n h
   | cid n => exact C04_cid ext n h
-  | tid b o => exact C04_tid_partial ext b o h hk.2.1
+  | tid b o => exact C04_tid_partial ext b o h hk.2
   | float4 b => exact C04_float4 ext b h
   | float8 b => exact C04_float8 ext b h
   | money c => exact C04_money ext c h
@@ -650,12 +724,17 @@ theorem C04_all_partial (ext : Ext) (hext : ext.jsonUnmarshal = Model.ScalarsJso
   | box a b => exact C04_box ext a b h
   | line a b c => exact C04_line ext a b c h
   | circle c r => exact C04_circle ext c r h
-  | path c pts => exact absurd hk.2.2.2 (by simp [kfPath])
-  | polygon bb pts => exact absurd hk.2.2.2 (by simp [kfPath])
+  | path c pts => exact C04_path ext c pts h
+  | polygon bb pts => exact C04_polygon ext bb pts h
   | range ty flags lo hi =>
     by_cases hty : ty = .num
-    · subst hty; exact C04_numrange_partial ext flags lo hi h hk.2.2.1
+    · subst hty; exact C04_numrange ext pf hpf hnum flags lo hi h
     · exact C04_range ext ty hty flags lo hi h
+
+/-- non-vacuity of `C04_all_partial`: one `Ext` satisfies both library hypotheses -/
+example : ∃ ext : Ext, ext.jsonUnmarshal = Model.ScalarsJsonLib.jsonUnmarshal ∧ ext.decodeNumeric = numExt Spec.parseFloatRef :=
+  ⟨{ decodeArray := fun _ _ => pure .nil, decodeNumeric := numExt Spec.parseFloatRef, parseJSONB := fun _ => pure .nil,
+     jsonUnmarshal := Model.ScalarsJsonLib.jsonUnmarshal }, rfl, rfl⟩
 
 /-- non-vacuity of the hypotheses: a timestamp beyond year 2262, a negative interval, a `+05:30` zone and an
 IPv6 /64 are well-formed values outside every recorded class -/
